@@ -560,7 +560,7 @@ META = {
             "text": "For each (P,Q) the three entry points are recorded on several representation pairs (A, J, S, identity forms) and all must equal the same specification value; prepared values are reused for several G1 inputs in two orders and through clone() while the source variable is overwritten; register-machine programs interleave prepare / prepared-pairing / clone with mutations of the source registers and explicit rescalings, the specification's prepared register holding only the value captured at preparation."},
     "C04": {"technique": "TLC trace validation against the affine group law (TLA+), TLC-enumerated SymGroup transitions replayed on the library, and exhaustive TLC model check of the transcribed Jacobian adder on tiny curves (ImplJacobian)",
             "text": "Recorded G1/G2 additions, subtractions, negations and commutativity/associativity/neutrality triples, with operands in every representation (z=1, library Jacobian, lambda-rescaled through G::new, identity as (0,1,0), as (x,y,0) left by P-P and as arbitrary (x,y,0)) and every relation (independent, equal, opposite, identity on either side, doubled), are abstracted by the specification itself (x/z^2, y/z^3 in TLA+) and compared with the textbook affine law; every result triple must satisfy y^2 = x^3 + b z^6; sampled events also check the logged discrete logarithms by textbook double-and-add."},
-    "C05": {"technique": "TLC trace validation of P*k / k*P against affine double-and-add evaluated by TLC; SymGroup mul transitions replayed",
+    "C05": {"technique": "TLC trace validation of P*k / k*P against affine double-and-add evaluated by TLC (release profile, and the edge-scalar family again under the dev profile); SymGroup mul transitions replayed",
             "text": "Recorded scalar multiplications (both operand orders) with boundary scalars (0, 1, 2, r-1, r-2, (r+-1)/2, 2^i, 2^i-1, long runs, Montgomery-boundary pool, random) on points in every representation including identity forms are recomputed by TLC with affine double-and-add; module laws ((s+t)P, (st)P, 0P, 1P, (r-1)P, (r-1)P+P = O) are checked between recorded results and against the specification."},
     "C07": {"technique": "stateful TLC trace validation of random programs over Fr/Fq/Fq2 registers; TLC fixpoint of all operation sequences on the transcribed limb routines (ImplFieldMachine); TLAPS lemmas (MontArith)",
             "text": "Random programs compose every public producer of a field element (zero, one, from_slice/TryFrom of every length, interpret, from_str, from_hash, Fr::random on constant/all-ones/counter/PRNG streams, every operator, neg, inverse, pow, sqrt, set_bit for indices 0..300, real/imaginary/new) in arbitrary order; after every step the specification, which computes the value from its own abstract registers, requires the encoding to be below the modulus and equal to its value, is_zero to hold exactly for 0 and the logged == row against all live registers to equal value equality; a hang is reported by a watchdog."},
